@@ -16,11 +16,13 @@ import datetime
 import io
 import logging
 import random
+import warnings
 from fractions import Fraction
 
 import numpy as np
 
 logging.disable(logging.CRITICAL)
+warnings.filterwarnings("ignore", category=SyntaxWarning)
 
 with contextlib.redirect_stdout(io.StringIO()):
     from syne_tune.backend.trial_status import Trial
@@ -227,6 +229,9 @@ def metric_values(seed, tid, r, k, style):
         return [float(rr.randint(0, 2)) for _ in range(k)]
     if style == "const":
         return [0.5] * k
+    if style == "worsening":
+        # every new trial is worse than all earlier ones: rank n-1 of n at its first rung
+        return [float(tid) + r / 64.0] * k
     lat = random.Random(seed * 31 + tid)
     base = [lat.randrange(0, 32) for _ in range(k)]
     if style == "tradeoff" and k >= 2:
